@@ -219,16 +219,26 @@ Fixpoint send_all (cons : list (str * N)) (it : qitem) (c : core) : outcome * co
       end
   end.
 
-(* notify one slot that is going away: reply-queue item, then consumers, then drop it *)
-Definition notify_slot (s : slot) (rep cons : qitem) (c : core) : outcome * core :=
-  match send (s_reply s) rep c with
-  | (OOk, c1) =>
-      match send_all (s_consumers s) cons c1 with
-      | (OOk, c2) => (OOk, set_qs c2 (drop_slot_qs s (c_qs c2)))
-      | (r, c2) => (r, set_qs c2 (drop_slot_qs s (c_qs c2)))
-      end
-  | (r, c1) => (r, set_qs c1 (drop_slot_qs s (c_qs c1)))
-  end.
+(* notify one slot that is going away and drop it.  The caller blocked on the reply queue may
+   be the thread that owns the slot's consumers, in the middle of dropping one (a drop is a
+   cancel call): it must be released last, after every consumer has its terminal message -
+   server Connection.Close, the CloseOk for the client's Connection.Close, server Channel.Close
+   (consumers_first = true).  The arm for the CloseOk of the client's own Channel.Close answers
+   the caller first: no consumer of that channel can exist by then (they borrow the Channel) *)
+Definition notify_slot_gen (consumers_first : bool) (s : slot) (rep cons : qitem) (c : core) : outcome * core :=
+  let finish (rc : outcome * core) := (fst rc, set_qs (snd rc) (drop_slot_qs s (c_qs (snd rc)))) in
+  if consumers_first then
+    match send_all (s_consumers s) cons c with
+    | (OOk, c1) => finish (send (s_reply s) rep c1)
+    | rc => finish rc
+    end
+  else
+    match send (s_reply s) rep c with
+    | (OOk, c1) => finish (send_all (s_consumers s) cons c1)
+    | rc => finish rc
+    end.
+Definition notify_slot := notify_slot_gen true.
+Definition notify_slot_cf := notify_slot_gen false.
 
 (* `for (_, slot) in chan_slots.drain()`: the table is emptied first (all ids freed);
    iteration order is the HashMap's - modelled as ascending ids *)
@@ -372,7 +382,7 @@ Definition process_method (n : N) (m : smethod) (dbg : str) (c : core) : outcome
   | MChanCloseOk =>
       match alookup n (c_slots c) with
       | None => (OOk, c)
-      | Some s => notify_slot s (IReplyMethod MChanCloseOk) IClientClosedChannel (remove_slot n c)
+      | Some s => notify_slot_cf s (IReplyMethod MChanCloseOk) IClientClosedChannel (remove_slot n c)
       end
   | MConsumeOk tag =>
       with_slot (fun s =>
@@ -404,16 +414,19 @@ Definition process_method (n : N) (m : smethod) (dbg : str) (c : core) : outcome
       with_slot (fun s =>
         let cq := lookup_tag tag (s_consumers s) in
         let c1 := set_slot c n (with_consumers s (remove_tag tag (s_consumers s))) in
-        match send (s_reply s) (IReplyMethod (MCancelOk tag)) c1 with
-        | (OOk, c2) =>
-            match cq with
-            | Some q =>
-                match send q IClientCancelled c2 with
-                | (r, c3) => (r, set_qs c3 (drop_tx q (c_qs c3)))
-                end
-            | None => (OOk, c2)
-            end
-        | (r, c2) => (r, set_qs c2 (drop_tx_opt cq (c_qs c2)))
+        (* the consumer is told first, the caller is answered second: the caller may drop
+           the consumer's receiver as soon as it has its answer *)
+        let '(r1, c2) :=
+          match cq with
+          | Some q =>
+              match send q IClientCancelled c1 with
+              | (r, c') => (r, set_qs c' (drop_tx q (c_qs c')))
+              end
+          | None => (OOk, c1)
+          end in
+        match r1 with
+        | OOk => send (s_reply s) (IReplyMethod (MCancelOk tag)) c2
+        | _ => (r1, c2)
         end)
   | MDeliver tag dtag red exch rk =>
       with_slot (fun s => collect n s (collect_method (CDeliver tag dtag red exch rk) (s_coll s)) c)
